@@ -718,5 +718,19 @@ func TestC25(t *testing.T) {
 		"removing a valid key that is not listed may return an error or nil (the statement is silent) but must not change the effective policy",
 		"meaning of the pre-existing files: ini syntax (spaces around '=' allowed, '#'/';' comment lines ignored, repeated list entries = one member, last scalar wins)",
 		"a restart is modelled as policy.CreateFromFile on the same path; the file is only written by the policy package itself during a sequence")
+	// two operator RPCs at the same time (scheduler-based exploration, own process)
+	sv, scov := c25Sched()
+	for _, v := range sv {
+		if v.Property == "C25" {
+			rep.Violations = append(rep.Violations, v)
+		}
+	}
+	if l, ok := scov["internal"].([]string); ok {
+		rep.Internal = append(rep.Internal, l...)
+		delete(scov, "internal")
+	}
+	for k, v := range scov {
+		rep.Extra[k] = v
+	}
 	finishEnum(t, &rep)
 }
